@@ -66,7 +66,6 @@ type c08In struct {
 	Log       bool       `json:"log,omitempty"`
 	Conn      int        `json:"conn,omitempty"` // 0: connected  1: no transport (nil)  2: a transport that was never connected
 	SockF     []c08Fault `json:"sockf,omitempty"`
-	LogF      []c08Fault `json:"logf,omitempty"`
 	Ops       []c08Op    `json:"ops,omitempty"`
 	// tcp / ws
 	Senders   int   `json:"senders,omitempty"`
@@ -177,12 +176,26 @@ func (o c08Op) iqGetSet() bool {
 
 // ---------------------------------------------------------------- recording writers
 
-const c08NoRW = "cannot write: not connected, no readwriter" // XMPPTransport.Write before Connect
+// tok: the payload of an op as the model sees it and as observed writes are compared.
+// Send / SendIQ: the stanza read as XML elements (attribute order, quote style, <a/> versus
+// <a></a> and xmlns repetition are free; names, namespaces, attribute values, children
+// order and character data are exact).  SendRaw: the exact bytes, that IS the property.
+func (o c08Op) tok(written string) string {
+	if o.K == "raw" {
+		return "R:" + written
+	}
+	return canonOrRaw(written)
+}
 
-var (
-	c08SockErr = errors.New("c08: socket write failed")
-	c08LogErr  = errors.New("c08: log write failed")
-)
+// want: the token of what the op must put on the wire.
+func (o c08Op) want() string { return o.tok(o.data()) }
+
+var c08SockErr = errors.New("c08: socket write failed")
+
+// Fault byte counts are 0, 1, 2 or "everything" so that whether a write was taken whole
+// does not depend on how a stanza happens to be spelled (every serialised stanza is longer
+// than 2 bytes; raw strings are compared exactly anyway).
+const c08All = 1 << 18
 
 type c08Writer struct {
 	mu     sync.Mutex
@@ -202,6 +215,7 @@ func c08NewWriter(fs []c08Fault, err error) *c08Writer {
 	return w
 }
 
+// Write copies p before it returns: the caller may reuse the slice afterwards.
 func (w *c08Writer) Write(p []byte) (int, error) {
 	w.mu.Lock()
 	defer w.mu.Unlock()
@@ -253,53 +267,26 @@ func c08Strs(l []string) Sx {
 	return LS(xs)
 }
 
-func c08ErrKind(err error) (Sx, bool) {
-	switch {
-	case err == c08SockErr:
-		return Z(0), true
-	case err == c08LogErr:
-		return Z(1), true
-	case err == io.ErrShortWrite:
-		return Z(2), true
+// c08Result: error or no error, nothing about which error (8: SendIQ returned neither an
+// error nor a channel).
+func c08Result(err error, chanOK bool) Sx {
+	if err != nil {
+		return Z(1)
 	}
-	return Z(-1), false
+	if !chanOK {
+		return Z(8)
+	}
+	return Z(0)
 }
 
-func c08Result(err error, chanOK bool) Sx {
-	if err == nil {
-		if !chanOK {
-			return L(Z(8)) // SendIQ returned nil error and nil channel
-		}
-		return L(Z(0))
-	}
-	if k, ok := c08ErrKind(err); ok {
-		return L(Z(1), k)
-	}
-	if err == xmpp.ErrCanOnlySendGetOrSetIq {
-		return L(Z(3))
-	}
-	msg := err.Error()
-	if msg == "client is not connected" || msg == "component is not connected" {
-		return L(Z(4))
-	}
-	if msg == c08NoRW {
-		return L(Z(1), Z(3))
-	}
-	const pre = "cannot send packet "
-	if strings.HasPrefix(msg, pre) {
-		switch msg[len(pre):] {
-		case c08SockErr.Error():
-			return L(Z(2), Z(0))
-		case c08LogErr.Error():
-			return L(Z(2), Z(1))
-		case io.ErrShortWrite.Error():
-			return L(Z(2), Z(2))
-		case c08NoRW:
-			return L(Z(2), Z(3))
-		}
-	}
-	return L(Z(9), SBytes(msg))
+// c08Log swallows the traffic log: how the logger spells and chunks its own output is not
+// the property's business.
+type c08Log struct {
+	mu sync.Mutex
+	n  int
 }
+
+func (l *c08Log) Write(p []byte) (int, error) { l.mu.Lock(); l.n += len(p); l.mu.Unlock(); return len(p), nil }
 
 // ---------------------------------------------------------------- mode seq
 
@@ -309,18 +296,33 @@ type c08Sender interface {
 	SendIQ(context.Context, *stanza.IQ) (chan stanza.IQ, error)
 }
 
+func (in *c08In) rejected(i int) bool { o := in.Ops[i]; return o.K == "sendiq" && !o.iqGetSet() }
+
+// pushing: the ops whose payload a client with stream management holds in the queue
+func (in *c08In) pushing() []c08Op {
+	var r []c08Op
+	if in.Component || !in.SM || in.Conn == 1 {
+		return nil
+	}
+	for i, o := range in.Ops {
+		if !in.rejected(i) && !o.nonza() {
+			r = append(r, o)
+		}
+	}
+	return r
+}
+
 func c08RunSeq(in *c08In) Sx {
 	sock := c08NewWriter(in.SockF, c08SockErr)
-	logw := c08NewWriter(in.LogF, c08LogErr)
 	tr := &c08Transport{stubTransport: newStub(nil, nil)}
 	if in.Log {
-		tr.rw = xmpp.VerifStreamLogger(c08RW{sock}, logw)
+		tr.rw = xmpp.VerifStreamLogger(c08RW{sock}, &c08Log{})
 	} else {
 		tr.rw = xmpp.VerifStreamLogger(c08RW{sock}, nil)
 	}
 	router := xmpp.NewRouter()
 	var snd c08Sender
-	var queue func() []Sx
+	var queue func() []string
 	if in.Component {
 		c, _ := xmpp.NewComponent(xmpp.ComponentOptions{Domain: "comp.localhost", Secret: "s"}, router, func(error) {})
 		switch in.Conn {
@@ -331,7 +333,7 @@ func c08RunSeq(in *c08In) Sx {
 			xmpp.VerifComponentSetTransport(c, ft)
 		}
 		snd = c
-		queue = func() []Sx { return nil }
+		queue = func() []string { return nil }
 	} else {
 		cfg := &xmpp.Config{TransportConfiguration: xmpp.TransportConfiguration{Address: "localhost:1"}, Jid: "u@localhost", Credential: xmpp.Password("p"), StreamManagementEnable: in.SM}
 		c, err := xmpp.NewClient(cfg, router, func(error) {})
@@ -351,13 +353,13 @@ func c08RunSeq(in *c08In) Sx {
 		}
 		xmpp.VerifSetSession(c, sm)
 		snd = c
-		queue = func() []Sx {
+		queue = func() []string {
 			if !in.SM {
 				return nil
 			}
-			var es []Sx
+			var es []string
 			for _, e := range c.Session.SMState.UnAckQueue.Uslice {
-				es = append(es, L(Zi(e.Id), SBytes(e.Stz)))
+				es = append(es, e.Stz)
 			}
 			return es
 		}
@@ -366,7 +368,7 @@ func c08RunSeq(in *c08In) Sx {
 	defer cancel()
 	var steps []Sx
 	for _, o := range in.Ops {
-		s0, l0 := sock.ncalls(), logw.ncalls()
+		s0 := sock.ncalls()
 		var err error
 		chanOK := true
 		switch o.K {
@@ -379,15 +381,32 @@ func c08RunSeq(in *c08In) Sx {
 		default:
 			err = snd.Send(o.packet())
 		}
-		steps = append(steps, L(c08Result(err, chanOK), c08Strs(sock.since(s0)), c08Strs(logw.since(l0))))
+		var ws []string
+		for _, w := range sock.since(s0) {
+			ws = append(ws, o.tok(w))
+		}
+		steps = append(steps, L(c08Result(err, chanOK), c08Strs(ws)))
 	}
-	return L(LS(steps), LS(queue()), SBytes(sock.taken.String()))
+	// queue payloads, each read as the op that (by the push rule) put it there
+	push := in.pushing()
+	var q []string
+	for j, e := range queue() {
+		if j < len(push) {
+			q = append(q, push[j].tok(e))
+		} else {
+			q = append(q, "R:"+e)
+		}
+	}
+	return L(LS(steps), c08Strs(q))
 }
 
+// faults as the model gets them: its payloads are tokens, at least 2 bytes longer than a raw
+// string and never shorter than 5 bytes for a stanza, so n+2 bytes taken of a token means
+// "whole" exactly when n bytes taken of the real write does.
 func c08FaultsSx(fs []c08Fault) Sx {
 	xs := make([]Sx, len(fs))
 	for i, f := range fs {
-		xs[i] = L(Zi(f.K), Zi(f.Kind), Zi(f.N))
+		xs[i] = L(Zi(f.K), Zi(f.Kind), Zi(f.N+2))
 	}
 	return LS(xs)
 }
@@ -402,19 +421,23 @@ func c08IQTypeZ(t string) Sx {
 	return Z(2)
 }
 
-func c08InputSeq(in *c08In) Sx {
+func c08OpsSx(in *c08In) Sx {
 	ops := make([]Sx, len(in.Ops))
 	for i, o := range in.Ops {
 		switch o.K {
 		case "raw":
-			ops[i] = L(Z(1), SBytes(o.rawString()))
+			ops[i] = L(Z(1), SBytes(o.want()))
 		case "sendiq":
-			ops[i] = L(Z(2), SBytes(o.data()), c08IQTypeZ(o.Typ))
+			ops[i] = L(Z(2), SBytes(o.want()), c08IQTypeZ(o.Typ))
 		default:
-			ops[i] = L(Z(0), SBytes(o.data()), B(o.nonza()))
+			ops[i] = L(Z(0), SBytes(o.want()), B(o.nonza()))
 		}
 	}
-	return L(Z(0), L(B(in.Component), B(in.SM), B(in.Log), Zi(in.Conn)), c08FaultsSx(in.SockF), c08FaultsSx(in.LogF), LS(ops))
+	return LS(ops)
+}
+
+func c08InputSeq(in *c08In) Sx {
+	return L(Z(0), L(B(in.Component), B(in.SM), B(in.Log), Zi(in.Conn)), c08FaultsSx(in.SockF), L(), c08OpsSx(in))
 }
 
 func c08FaultAt(fs []c08Fault, k int) (c08Fault, bool) {
@@ -437,92 +460,55 @@ func (f c08Fault) failsOn(plen int, withCount bool) bool {
 
 // Model-free oracle for mode seq: the property's own clauses on the observation.
 func c08OracleSeq(in *c08In, obs Sx) (string, string) {
-	if len(obs.L) != 3 || len(obs.L[0].L) != len(in.Ops) {
+	if len(obs.L) != 2 || len(obs.L[0].L) != len(in.Ops) {
 		return "unexpected observation shape: " + obs.String(), "shape"
 	}
-	si, li := 0, 0 // socket / log call counters
-	var wantQueue []string
-	var wantWire strings.Builder
-	anyFault := false
+	si := 0 // socket call counter
 	for i, o := range in.Ops {
 		st := obs.L[0].L[i]
-		res, sc, lc := st.L[0], st.L[1].L, st.L[2].L
-		data := o.data()
-		rejected := o.K == "sendiq" && !o.iqGetSet()
-		attempted := in.Conn == 0 && !rejected
-		if in.Conn == 2 && !rejected && !in.Component && in.SM && !o.nonza() {
-			wantQueue = append(wantQueue, data) // the push precedes the write
-		}
+		res, sc := st.L[0].Z, st.L[1].L
+		want := o.want()
+		attempted := in.Conn == 0 && !in.rejected(i)
 		if !attempted {
-			if len(sc) != 0 || len(lc) != 0 {
+			if len(sc) != 0 {
 				return fmt.Sprintf("op %d (%s): %d transport writes by an op that must not write", i, o.K, len(sc)), "write-by-rejected"
 			}
-			if res.L[0].Z == 0 {
+			if res == 0 {
 				return fmt.Sprintf("op %d (%s type %q, connection state %d) returned nil", i, o.K, o.Typ, in.Conn), "rejected-returns-nil"
 			}
 			continue
 		}
-		// exactly one transport write, carrying the whole data
+		// exactly one transport write, carrying the whole stanza (raw string) and nothing else
 		if len(sc) != 1 {
-			return fmt.Sprintf("op %d (%s, %d bytes): %d transport writes, want exactly 1", i, o.K, len(data), len(sc)), "write-count"
+			return fmt.Sprintf("op %d (%s): %d transport writes, want exactly 1", i, o.K, len(sc)), "write-count"
 		}
-		if string(bytesOf(sc[0])) != data {
-			return fmt.Sprintf("op %d (%s): the transport write carries %d bytes that are not the serialised stanza (%d bytes)", i, o.K, len(sc[0].S), len(data)), "write-bytes"
-		}
-		if !in.Component && in.SM && !(o.nonza()) {
-			wantQueue = append(wantQueue, data)
-		}
-		// did a fault hit this write?
-		failed := false
-		taken := len(data)
-		if in.Log {
-			li++ // prefix
-		}
-		if f, ok := c08FaultAt(in.SockF, si); ok {
-			if f.N < taken {
-				taken = f.N
+		if got := string(bytesOf(sc[0])); got != want {
+			what := "the stanza sent (read as XML elements)"
+			if o.K == "raw" {
+				what = "the raw string"
 			}
-			failed = f.failsOn(len(data), in.Log)
-			anyFault = true
+			return fmt.Sprintf("op %d (%s): the transport write is not %s: wrote %.120q, want %.120q", i, o.K, what, got, want), "write-bytes"
+		}
+		failed := false
+		if f, ok := c08FaultAt(in.SockF, si); ok {
+			failed = f.failsOn(len(o.data()), in.Log)
 		}
 		si++
-		wantWire.WriteString(data[:taken])
-		if in.Log && !failed {
-			if f, ok := c08FaultAt(in.LogF, li); ok {
-				failed = f.failsOn(len(data), true)
-				anyFault = true
-			}
-			li++
-			if !failed {
-				li++ // separator
-			}
-		}
-		isNil := res.L[0].Z == 0
-		if failed && isNil {
+		if failed && res != 1 {
 			return fmt.Sprintf("op %d (%s): the write failed (injected fault) but the call returned nil", i, o.K), "unreported-failure"
 		}
-		if !failed && !isNil {
-			return fmt.Sprintf("op %d (%s): no fault injected but the call returned %s", i, o.K, res.String()), "spurious-error"
+		if !failed && res != 0 {
+			return fmt.Sprintf("op %d (%s): no fault injected but the call did not return nil (and a channel)", i, o.K), "spurious-error"
 		}
-		if in.Log && !failed {
-			if len(lc) != 3 || string(bytesOf(lc[0])) != "SEND:\n" || string(bytesOf(lc[1])) != data || string(bytesOf(lc[2])) != "\n\n" {
-				return fmt.Sprintf("op %d (%s): log writes are not SEND:\\n, data, \\n\\n", i, o.K), "log-format"
-			}
-		}
-		if !in.Log && len(lc) != 0 {
-			return fmt.Sprintf("op %d: log written without a logger", i), "log-format"
-		}
-	}
-	if got := string(bytesOf(obs.L[2])); got != wantWire.String() {
-		return fmt.Sprintf("socket byte stream (%d bytes) is not the concatenation of the data strings (%d bytes; faults injected: %v)", len(got), wantWire.Len(), anyFault), "wire-bytes"
 	}
 	q := obs.L[1].L
-	if len(q) != len(wantQueue) {
-		return fmt.Sprintf("unacknowledged queue holds %d entries, want %d", len(q), len(wantQueue)), "queue"
+	push := in.pushing()
+	if len(q) != len(push) {
+		return fmt.Sprintf("unacknowledged queue holds %d entries, want %d", len(q), len(push)), "queue"
 	}
 	for i := range q {
-		if string(bytesOf(q[i].L[1])) != wantQueue[i] {
-			return fmt.Sprintf("unacknowledged queue entry %d is not the data sent", i), "queue"
+		if string(bytesOf(q[i])) != push[i].want() {
+			return fmt.Sprintf("unacknowledged queue entry %d is not what was sent", i), "queue"
 		}
 	}
 	return "", ""
@@ -532,12 +518,11 @@ func c08OracleSeq(in *c08In, obs Sx) (string, string) {
 
 func c08RunLogger(in *c08In) Sx {
 	sock := c08NewWriter(in.SockF, c08SockErr)
-	logw := c08NewWriter(in.LogF, c08LogErr)
 	conn := c08RW{sock}
 	if xmpp.VerifStreamLogger(conn, nil) != io.ReadWriter(conn) {
 		return L(SBytes("anomaly"), SBytes("nil-log"), SBytes("newStreamLogger(conn, nil) is not conn"))
 	}
-	sl := xmpp.VerifStreamLogger(conn, logw)
+	sl := xmpp.VerifStreamLogger(conn, &c08Log{})
 	var res []Sx
 	for i, o := range in.Ops {
 		p := []byte(o.rawString())
@@ -546,81 +531,53 @@ func c08RunLogger(in *c08In) Sx {
 		if string(p) != keep {
 			return L(SBytes("anomaly"), SBytes("mutates-argument"), SBytes(fmt.Sprintf("write %d: Write modified its argument", i)))
 		}
-		if err == nil {
-			if n != len(p) {
-				return L(SBytes("anomaly"), SBytes("count"), SBytes(fmt.Sprintf("write %d: nil error with n=%d of %d", i, n, len(p))))
-			}
-			res = append(res, L())
-			continue
+		if err == nil && n != len(p) {
+			return L(SBytes("anomaly"), SBytes("count"), SBytes(fmt.Sprintf("write %d: nil error with n=%d of %d", i, n, len(p))))
 		}
-		k, ok := c08ErrKind(err)
-		if !ok {
-			return L(SBytes("anomaly"), SBytes("error-kind"), SBytes(err.Error()))
-		}
-		res = append(res, L(k))
+		res = append(res, c08Result(err, true))
 	}
-	return L(LS(res), c08Strs(sock.calls), c08Strs(logw.calls), SBytes(sock.taken.String()), SBytes(logw.taken.String()))
+	return L(LS(res), c08Strs(sock.calls), SBytes(sock.taken.String()))
 }
 
 func c08InputLogger(in *c08In) Sx {
 	ps := make([]Sx, len(in.Ops))
+	fs := make([]Sx, len(in.SockF))
 	for i, o := range in.Ops {
 		ps[i] = SBytes(o.rawString())
 	}
-	return L(Z(1), c08FaultsSx(in.SockF), c08FaultsSx(in.LogF), LS(ps))
+	for i, f := range in.SockF { // payloads are the exact bytes here
+		fs[i] = L(Zi(f.K), Zi(f.Kind), Zi(f.N))
+	}
+	return L(Z(1), LS(fs), L(), LS(ps))
 }
 
 func c08OracleLogger(in *c08In, obs Sx) (string, string) {
 	if len(obs.L) == 3 && obs.L[0].K == "s" {
 		return string(bytesOf(obs.L[2])), "logger-" + string(bytesOf(obs.L[1]))
 	}
-	if len(obs.L) != 5 || len(obs.L[0].L) != len(in.Ops) {
+	if len(obs.L) != 3 || len(obs.L[0].L) != len(in.Ops) {
 		return "unexpected observation shape: " + obs.String(), "shape"
 	}
-	// the socket receives every p exactly once, in order, whatever happens to the log
+	// the socket receives every p exactly once, in order; a failing or short socket write is reported
 	sc := obs.L[1].L
 	if len(sc) != len(in.Ops) {
 		return fmt.Sprintf("socket got %d writes for %d logger writes", len(sc), len(in.Ops)), "logger-socket-writes"
 	}
-	li := 0
-	var wantLog []string
 	for i, o := range in.Ops {
 		p := o.rawString()
 		if string(bytesOf(sc[i])) != p {
 			return fmt.Sprintf("write %d: the socket did not get exactly p", i), "logger-socket-writes"
 		}
 		failed := false
-		wantLog = append(wantLog, "SEND:\n")
-		li++
 		if f, ok := c08FaultAt(in.SockF, i); ok {
 			failed = f.failsOn(len(p), true)
 		}
-		if !failed {
-			wantLog = append(wantLog, p)
-			if f, ok := c08FaultAt(in.LogF, li); ok {
-				failed = f.failsOn(len(p), true)
-			}
-			li++
-			if !failed {
-				wantLog = append(wantLog, "\n\n")
-				li++
-			}
-		}
-		isNil := len(obs.L[0].L[i].L) == 0
+		isNil := obs.L[0].L[i].Z == 0
 		if failed && isNil {
-			return fmt.Sprintf("write %d: a failing or short write was not reported", i), "logger-unreported-failure"
+			return fmt.Sprintf("write %d: a failing or short socket write was not reported", i), "logger-unreported-failure"
 		}
 		if !failed && !isNil {
 			return fmt.Sprintf("write %d: error without a fault", i), "logger-spurious-error"
-		}
-	}
-	lc := obs.L[2].L
-	if len(lc) != len(wantLog) {
-		return fmt.Sprintf("log got %d writes, want %d", len(lc), len(wantLog)), "logger-log-format"
-	}
-	for i := range lc {
-		if string(bytesOf(lc[i])) != wantLog[i] {
-			return fmt.Sprintf("log write %d differs from SEND:\\n / p / \\n\\n", i), "logger-log-format"
 		}
 	}
 	return "", ""
@@ -820,16 +777,7 @@ func c08RunWSFault(in *c08In) Sx {
 		default:
 			err = c.Send(o.packet())
 		}
-		switch {
-		case err == nil && chanOK:
-			res = append(res, L(Z(0)))
-		case err == nil:
-			res = append(res, L(Z(8)))
-		case err == xmpp.ErrCanOnlySendGetOrSetIq:
-			res = append(res, L(Z(3)))
-		default:
-			res = append(res, L(Z(1), Z(0))) // whatever the websocket library calls it: the socket's failure
-		}
+		res = append(res, c08Result(err, chanOK))
 		if i < in.FailFrom && in.wsAttempted(i) {
 			delivered++
 		}
@@ -853,49 +801,40 @@ func c08RunWSFault(in *c08In) Sx {
 	if len(msgs) == 0 {
 		return c08Anomaly("lost", "nothing received, not even <open/>")
 	}
-	want := in.wsExpected()
+	// each message read as the op that (in order) should have produced it
+	del := in.wsDelivered()
+	var toks []string
 	for j, m := range msgs[1:] {
-		if j < len(want) && m != want[j] {
-			return c08Anomaly("message", fmt.Sprintf("websocket message %d (%d bytes) is not the serialised stanza (%d bytes)", j, len(m), len(want[j])))
+		if j < len(del) {
+			toks = append(toks, del[j].tok(m))
+		} else {
+			toks = append(toks, "R:"+m)
 		}
 	}
-	return L(LS(res), SBytes(strings.Join(msgs[1:], "")))
+	return L(LS(res), SBytes(strings.Join(toks, "")))
 }
 
 func c08InputWSFault(in *c08In) Sx {
-	ops := make([]Sx, len(in.Ops))
-	k0 := 0
-	for i, o := range in.Ops {
-		if i < in.FailFrom && in.wsAttempted(i) {
-			k0++
-		}
-		switch o.K {
-		case "raw":
-			ops[i] = L(Z(1), SBytes(o.rawString()))
-		case "sendiq":
-			ops[i] = L(Z(2), SBytes(o.data()), c08IQTypeZ(o.Typ))
-		default:
-			ops[i] = L(Z(0), SBytes(o.data()), B(o.nonza()))
-		}
-	}
+	k0 := len(in.wsDelivered())
 	if in.FailFrom >= len(in.Ops) {
 		k0 = len(in.Ops) + 1 // never
 	}
-	return L(Z(3), B(in.SM), Zi(k0), LS(ops))
+	return L(Z(3), B(in.SM), Zi(k0), c08OpsSx(in))
 }
 
-func (in *c08In) wsExpected() []string {
-	var want []string
+// wsDelivered: the ops that reach the socket before it breaks
+func (in *c08In) wsDelivered() []c08Op {
+	var r []c08Op
 	for i, o := range in.Ops {
 		if i < in.FailFrom && in.wsAttempted(i) {
-			want = append(want, o.data())
+			r = append(r, o)
 		}
 	}
-	return want
+	return r
 }
 
 // Model-free oracle: a send issued after the socket broke must return an error; the
-// sends before it return nil and are what the peer received, in order.
+// sends before it return nil and are what the peer received, one message each, in order.
 func c08OracleWSFault(in *c08In, obs Sx) (string, string) {
 	if len(obs.L) == 3 && obs.L[0].K == "s" {
 		return "wsfault: " + string(bytesOf(obs.L[2])), "wsfault-" + string(bytesOf(obs.L[1]))
@@ -904,26 +843,31 @@ func c08OracleWSFault(in *c08In, obs Sx) (string, string) {
 		return "unexpected observation shape", "shape"
 	}
 	for i, o := range in.Ops {
-		r := obs.L[0].L[i].L[0].Z
+		r := obs.L[0].L[i].Z
 		switch {
 		case !in.wsAttempted(i):
-			if r != 3 {
+			if r == 0 {
 				return fmt.Sprintf("op %d: SendIQ of type %q was not rejected", i, o.Typ), "rejected-returns-nil"
 			}
-		case i >= in.FailFrom && r == 0:
+		case i >= in.FailFrom && r != 1:
 			return fmt.Sprintf("op %d (%s, %d bytes) was sent over WebSocket after the TCP connection started failing every write, and returned nil: the failed write is not reported (and the stanza is lost)", i, o.K, len(o.data())), "ws-unreported-failure"
 		case i < in.FailFrom && r != 0:
 			return fmt.Sprintf("op %d (%s) failed on a healthy WebSocket connection", i, o.K), "ws-spurious-error"
 		}
 	}
-	if got, want := string(bytesOf(obs.L[1])), strings.Join(in.wsExpected(), ""); got != want {
-		return fmt.Sprintf("the peer received %d bytes, the sends that returned nil amount to %d bytes", len(got), len(want)), "ws-wire-bytes"
+	var want strings.Builder
+	for _, o := range in.wsDelivered() {
+		want.WriteString(o.want())
+	}
+	if got := string(bytesOf(obs.L[1])); got != want.String() {
+		return fmt.Sprintf("what the peer received is not the sequence of stanzas whose sends returned nil: got %.150q want %.150q", got, want.String()), "ws-wire-bytes"
 	}
 	return "", ""
 }
 
 type c08Sent struct {
 	id     string
+	op     c08Op
 	data   string
 	sender int
 	seq    int
@@ -964,20 +908,6 @@ func c08StressOp(in *c08In, s, q int) c08Op {
 	return o
 }
 
-type c08LogRec struct {
-	mu    sync.Mutex
-	calls map[string]int
-	n     int
-}
-
-func (l *c08LogRec) Write(p []byte) (int, error) {
-	l.mu.Lock()
-	l.calls[string(p)]++
-	l.n++
-	l.mu.Unlock()
-	return len(p), nil
-}
-
 func c08Anomaly(kind, msg string) Sx { return L(SBytes("anomaly"), SBytes(kind), SBytes(msg)) }
 
 func c08RunStress(in *c08In) Sx {
@@ -985,8 +915,6 @@ func c08RunStress(in *c08In) Sx {
 	var sink *c08Sink
 	var err error
 	var tr xmpp.Transport
-	var logrec *c08LogRec
-	var logfile *os.File
 	var memSock *c08Writer
 	tc := xmpp.TransportConfiguration{Address: "localhost:1", Domain: "localhost", ConnectTimeout: 1}
 	if mem {
@@ -995,8 +923,7 @@ func c08RunStress(in *c08In) Sx {
 		memSock = c08NewWriter(nil, nil)
 		mt := &c08Transport{stubTransport: newStub(nil, nil)}
 		if in.Log {
-			logrec = &c08LogRec{calls: map[string]int{}}
-			mt.rw = xmpp.VerifStreamLogger(c08RW{memSock}, logrec)
+			mt.rw = xmpp.VerifStreamLogger(c08RW{memSock}, &c08Log{})
 		} else {
 			mt.rw = c08RW{memSock}
 		}
@@ -1022,15 +949,13 @@ func c08RunStress(in *c08In) Sx {
 		}
 		if in.Log {
 			if in.Seed%2 == 0 {
-				logrec = &c08LogRec{calls: map[string]int{}}
-				tr.LogTraffic(logrec)
+				tr.LogTraffic(&c08Log{})
 			} else {
 				// a real file, as Config.StreamLogger is
 				f, err := os.CreateTemp(c08OutDir(), "c08log")
 				if err != nil {
 					return c08Anomaly("harness", "log file: "+err.Error())
 				}
-				logfile = f
 				defer func() { f.Close(); os.Remove(f.Name()) }()
 				tr.LogTraffic(f)
 			}
@@ -1071,7 +996,7 @@ func c08RunStress(in *c08In) Sx {
 			o := c08StressOp(in, s, q)
 			plan[s] = append(plan[s], o)
 			d := o.data()
-			sent[o.ID] = c08Sent{id: o.ID, data: d, sender: s, seq: q}
+			sent[o.ID] = c08Sent{id: o.ID, op: o, data: d, sender: s, seq: q}
 			total += len(d)
 		}
 	}
@@ -1172,8 +1097,8 @@ func c08RunStress(in *c08In) Sx {
 		if !ok {
 			return c08Anomaly("foreign", fmt.Sprintf("element %d has id %q that was never sent", i, id))
 		}
-		if e != st.data {
-			return c08Anomaly("bytes", fmt.Sprintf("element %d (id %s): %d bytes on the wire differ from the %d bytes xml.Marshal gives", i, id, len(e), len(st.data)))
+		if got, want := st.op.tok(e), st.op.want(); got != want {
+			return c08Anomaly("bytes", fmt.Sprintf("element %d (id %s) on the wire is not the stanza sent (read as XML elements; raw strings byte for byte): got %.120q want %.120q", i, id, got, want))
 		}
 		seen[id]++
 		if seen[id] > 1 {
@@ -1191,30 +1116,6 @@ func c08RunStress(in *c08In) Sx {
 	}
 	if len(seen) != len(sent) {
 		return c08Anomaly("lost", fmt.Sprintf("%d of %d stanzas arrived", len(seen), len(sent)))
-	}
-	// the traffic log got every stanza exactly once
-	if logrec != nil {
-		logrec.mu.Lock()
-		defer logrec.mu.Unlock()
-		for id, st := range sent {
-			want := st.data
-			if ws {
-				want = "SEND:\n" + st.data + "\n\n"
-			}
-			if logrec.calls[want] != 1 {
-				return c08Anomaly("log", fmt.Sprintf("stanza %s was logged %d times", id, logrec.calls[want]))
-			}
-		}
-	}
-	if logfile != nil {
-		fi, err := logfile.Stat()
-		if err != nil {
-			return c08Anomaly("harness", err.Error())
-		}
-		// SEND:\n + data + \n\n per stanza, plus the stream opening (sent and received)
-		if min := int64(total + 8*len(sent)); fi.Size() < min {
-			return c08Anomaly("log", fmt.Sprintf("log file has %d bytes, at least %d expected", fi.Size(), min))
-		}
 	}
 	if smq != nil {
 		// Push is not synchronised (C10's subject): only recorded, never a failure here
@@ -1385,6 +1286,13 @@ func c08OracleStress(in *c08In, obs Sx) (string, string) {
 func (c08) Decode(raw json.RawMessage) (interface{}, error) {
 	in := &c08In{}
 	err := json.Unmarshal(raw, in)
+	if in.Mode == "seq" {
+		for i := range in.SockF {
+			if in.SockF[i].N > 2 {
+				in.SockF[i].N = c08All
+			}
+		}
+	}
 	return in, err
 }
 
@@ -1491,11 +1399,7 @@ func (c08) Key(inp interface{}) (string, bool) {
 		fmt.Fprintf(&b, "S%d.%d.%s;", f.K, f.Kind, c08SizeClass(f.N))
 		hist(fmt.Sprintf("fault:socket-kind%d", f.Kind))
 	}
-	for _, f := range in.LogF {
-		fmt.Fprintf(&b, "L%d.%d.%s;", f.K, f.Kind, c08SizeClass(f.N))
-		hist(fmt.Sprintf("fault:log-kind%d", f.Kind))
-	}
-	if len(in.SockF)+len(in.LogF) == 0 {
+	if len(in.SockF) == 0 {
 		hist("fault:none")
 	}
 	return b.String(), writes >= 2
@@ -1550,7 +1454,9 @@ func c08GenOp(r *rand.Rand, i int, big bool) c08Op {
 	return o
 }
 
-func c08GenFaults(r *rand.Rand, ncalls int, dataLen func(k int) int) []c08Fault {
+// exact: the payloads are compared byte for byte (logger mode), any byte count is meaningful;
+// otherwise the counts are 0, 1, 2 or everything (see c08All).
+func c08GenFaults(r *rand.Rand, ncalls int, exact bool, dataLen func(k int) int) []c08Fault {
 	var fs []c08Fault
 	if ncalls == 0 {
 		return nil
@@ -1563,6 +1469,11 @@ func c08GenFaults(r *rand.Rand, ncalls int, dataLen func(k int) int) []c08Fault 
 		k := r.Intn(ncalls + 1) // may lie past the last call: never hit
 		l := dataLen(k)
 		f := c08Fault{K: k, Kind: 1 + r.Intn(2)}
+		if !exact {
+			f.N = []int{0, 0, 1, 2, c08All, c08All}[r.Intn(6)]
+			fs = append(fs, f)
+			continue
+		}
 		switch r.Intn(5) {
 		case 0:
 			f.N = 0
@@ -1597,7 +1508,7 @@ func (c08) Gen(r *rand.Rand, tier string) []interface{} {
 		&c08In{Mode: "seq", Conn: 2, Component: true, Ops: []c08Op{{K: "msg", ID: "1"}, {K: "raw", Raw: "x"}, {K: "sendiq", ID: "3", Typ: "get"}}},
 		&c08In{Mode: "seq", Conn: 1, Component: true, Ops: []c08Op{{K: "msg", ID: "1"}, {K: "raw", Raw: "x"}, {K: "sendiq", ID: "3", Typ: "get"}}},
 		&c08In{Mode: "seq", Ops: []c08Op{{K: "raw", Raw: "abc"}}, SockF: []c08Fault{{K: 0, Kind: 2, N: 1}}}, // short count, nil error, no logger: not reported (io.Writer contract broken by the socket)
-		&c08In{Mode: "logger", Ops: []c08Op{{K: "raw", Raw: ""}, {K: "raw", Raw: "abc"}, {K: "raw", Raw: "de"}}, LogF: []c08Fault{{K: 4, Kind: 2, N: 2}}},
+		&c08In{Mode: "logger", Ops: []c08Op{{K: "raw", Raw: ""}, {K: "raw", Raw: "abc"}, {K: "raw", Raw: "de"}}, SockF: []c08Fault{{K: 1, Kind: 2, N: 2}, {K: 2, Kind: 2, N: 2}}},
 	)
 	for i := 0; i < nseq; i++ {
 		in := &c08In{Mode: "seq"}
@@ -1632,19 +1543,7 @@ func (c08) Gen(r *rand.Rand, tier string) []interface{} {
 			return 3
 		}
 		if r.Intn(3) != 0 {
-			in.SockF = c08GenFaults(r, len(lens), dl)
-		}
-		if in.Log && r.Intn(3) == 0 {
-			// log calls: prefix, data, separator per write
-			in.LogF = c08GenFaults(r, 3*len(lens), func(k int) int {
-				switch k % 3 {
-				case 0:
-					return 6
-				case 1:
-					return dl(k / 3)
-				}
-				return 2
-			})
+			in.SockF = c08GenFaults(r, len(lens), false, dl)
 		}
 		out = append(out, in)
 	}
@@ -1665,18 +1564,7 @@ func (c08) Gen(r *rand.Rand, tier string) []interface{} {
 			return 3
 		}
 		if r.Intn(3) != 0 {
-			in.SockF = c08GenFaults(r, n, dl)
-		}
-		if r.Intn(2) == 0 {
-			in.LogF = c08GenFaults(r, 3*n, func(k int) int {
-				switch k % 3 {
-				case 0:
-					return 6
-				case 1:
-					return dl(k / 3)
-				}
-				return 2
-			})
+			in.SockF = c08GenFaults(r, n, true, dl)
 		}
 		out = append(out, in)
 	}
